@@ -1,7 +1,7 @@
 (* AmpPathRun.v — line-protocol adapter for the C11 models (harness glue, executable).
    Area token: amppath. *)
 From Coq Require Import List NArith Bool Arith String.
-From Snow Require Import Lib.Wire Model.B64Url Model.AmpPath.
+From Snow Require Import Lib.Wire Model.B64Url Model.AmpPath Model.CacheURL.
 Import ListNotations.
 Open Scope N_scope.
 
@@ -47,8 +47,84 @@ Definition run_path (args : list bytes) : option bytes :=
   | _ => None
   end.
 
+(* ---------- cache URL ops ---------- *)
+
+(* "n" = None / nil / library error; otherwise a payload *)
+Definition opt_payload_parse (t : bytes) : option (option bytes) :=
+  if beq t (bs "n") then Some None else option_map Some (payload_parse t).
+Definition opt_print (o : option bytes) : bytes :=
+  match o with Some d => xhex d | None => bs "n" end.
+
+Definition pub_parse (t : bytes) : option pub_url :=
+  match list_parse payload_parse t with
+  | Some [sc; us; hn; po; ep; rq; fr] =>
+      Some {| p_scheme := sc; p_user := negb (beq us []); p_hostname := hn; p_port := po;
+              p_epath := ep; p_rawquery := rq; p_fragment := fr |}
+  | _ => None
+  end.
+Definition cache_parse (t : bytes) : option cache_url_t :=
+  match list_parse opt_payload_parse t with
+  | Some [Some sc; us; Some hn; Some po; Some ep; Some rq; Some fr] =>
+      Some {| c_scheme := sc; c_user := us; c_hostname := hn; c_port := po;
+              c_epath := ep; c_rawquery := rq; c_fragment := fr |}
+  | _ => None
+  end.
+
+Definition res_print (r : option res_url) : bytes :=
+  match r with
+  | None => bs "err"
+  | Some u => bs "ok " ++ xhex (r_scheme u) ++ [SP] ++ opt_print (r_user u) ++ [SP] ++ xhex (r_host u)
+              ++ [SP] ++ xhex (r_rawpath u) ++ [SP] ++ xhex (r_rawquery u) ++ [SP] ++ xhex (r_fragment u)
+              ++ bs " ep=1"
+  end.
+
+(* The library oracles of one case: ToUnicode(hostname) = ou, ToASCII(pre) = oa,
+   sha256(hostname) = sha.  A ToASCII query on anything but `pre` means the case line was
+   not prepared for this model version: visible as "!oracle-miss". *)
+Definition run_cacheurl (h34 : bytes -> bool) (pu : pub_url) (cu : cache_url_t) (ct : bytes)
+                        (ou : option bytes) (pre : option bytes) (oa : option bytes) (sha : bytes) : bytes :=
+  let miss := match ou, pre with
+              | Some u, Some p => negb (beq (steps234 h34 u) p)
+              | Some _, None => true
+              | None, _ => false
+              end in
+  if miss then bs "!oracle-miss"
+  else res_print (cache_url (fun _ => ou) (fun _ => oa) (fun _ => sha) h34 pu cu ct).
+
+Definition run_cache (args : list bytes) : option bytes :=
+  match args with
+  | [op; a] =>
+      if beq op (bs "pre") then option_map (fun u => xhex (steps234 h34_runes u)) (payload_parse a)
+      else if beq op (bs "pre0") then option_map (fun u => xhex (steps234 h34_bytes u)) (payload_parse a)
+      else if beq op (bs "clean") then option_map (fun u => xhex (path_clean u)) (payload_parse a)
+      else if beq op (bs "join") then option_map (fun l => xhex (path_join l)) (list_parse payload_parse a)
+      else if beq op (bs "pesc") then option_map (fun u => xhex (path_escape u)) (payload_parse a)
+      else if beq op (bs "punesc") then option_map (fun u => bool_print (valid_escapes u)) (payload_parse a)
+      else if beq op (bs "h34r") then option_map (fun u => bool_print (h34_runes u)) (payload_parse a)
+      else if beq op (bs "b32") then option_map (fun u => xhex (b32_encode u)) (payload_parse a)
+      else if beq op (bs "utf8") then option_map (fun l => xhex (utf8_encode l)) (list_parse dec_parse a)
+      else None
+  | [op; a; b] =>
+      if beq op (bs "jhp") then
+        match payload_parse a, payload_parse b with
+        | Some h, Some p => Some (xhex (join_host_port h p))
+        | _, _ => None
+        end
+      else None
+  | [op; _; _; ct; pf; cf; ou; pre; oa; sha] =>
+      let h34 := if beq op (bs "cacheurl") then Some h34_runes
+                 else if beq op (bs "cacheurl0") then Some h34_bytes else None in
+      match h34, payload_parse ct, pub_parse pf, cache_parse cf, opt_payload_parse ou,
+            opt_payload_parse pre, opt_payload_parse oa, payload_parse sha with
+      | Some h, Some ct, Some pu, Some cu, Some ou, Some pre, Some oa, Some sha =>
+          Some (run_cacheurl h pu cu ct ou pre oa sha)
+      | _, _, _, _, _, _, _, _ => None
+      end
+  | _ => None
+  end.
+
 Definition run (args : list bytes) : bytes :=
   match run_path args with
   | Some r => r
-  | None => ERR_BADCASE
+  | None => match run_cache args with Some r => r | None => ERR_BADCASE end
   end.
